@@ -159,6 +159,8 @@ Fixpoint run_steps (e : env) (dump_each : bool) (dump_end : bool) (sv : server) 
           | OOk sv' out =>
               let oc := match en with
                         | EMessage _ _ session cmid _ _ => if is_retry (session, 0%N) cmid sv then "dup" else "ok"
+                        | EConfig _ _ revision (Some g) =>
+                            match config_in_force revision (Some g) sv with Some _ => "ok" | None => "cfgrev" end
                         | _ => "ok"
                         end in
               show_step oc out (d sv') :: run_steps e dump_each dump_end sv' rest
